@@ -92,7 +92,8 @@ def work(item):
                     env2.update({k: x for k, x in (model or {}).items() if k in env2})
                     return replay_point(v, st, env2, i)
 
-                acc.query(prover, None, f"{v.name} numpy vs {st}", f"out[{i}] equal", a.t == b.t, D, pc, on_sat)
+                penv = [{k: x for k, x in sample_env(v, rng).items() if k.split("[")[0] in prims.POS | {"alpha"}} for _ in range(3)]
+                acc.query(prover, None, f"{v.name} numpy vs {st}", f"out[{i}] equal", a.t == b.t, D, pc, on_sat, retry_envs=penv)
                 for side, s in (("numpy", a), (st, b)):
                     if s.d is None:
                         continue
@@ -103,7 +104,7 @@ def work(item):
                         env2.update({k: x for k, x in (model or {}).items() if k in env2})
                         return replay_finite(v, side, st, env2, i)
 
-                    acc.query(prover, None, f"{v.name} {side}", f"finite(out[{i}])", s.d, D, pc, on_sat_d, sample=False)
+                    acc.query(prover, None, f"{v.name} {side}", f"finite(out[{i}])", s.d, D, pc, on_sat_d, sample=False, retry_envs=penv)
         for kind, cond, opc, note in obl:
             acc.query(prover, None, f"{v.name} numpy", note, cond, D, opc, lambda m: None, sample=False)
     if acc.d["samples"]:
